@@ -26,6 +26,8 @@ const (
 	KFWrongPhase  = "KF-C15-wrong-phase-commit-wedge"
 	KFStaleElect  = "KF-C15-stale-election-cert"
 	KFHighQcBlock = "KF-C15-highqc-without-block"
+	KFElectPrecom = "KF-C15-election-cert-in-precommit"
+	KFStripBlock  = "KF-C15-evidence-strips-commit-block"
 )
 
 // PacemakerVulnerable reports whether the Byzantine validators alone reach the pacemaker threshold of bft.Pacemaker().
@@ -39,11 +41,12 @@ func PacemakerVulnerable(s *bs.Sim) bool {
 
 // Options tune a scenario.
 type Options struct {
-	AllowDupReset bool   // include the labelled "same root height repeated reset" action (C01 only)
-	MaxSegments   int    // upper bound on round segments (0 = 12)
-	CutSteps      int    // stop the scenario once this many simulator steps were taken (0 = never) - C15's GST
-	Families      string // restrict to families, e.g. "F3" (sensitivity experiments); "" = all
-	NoFinish      bool   // do not append the closing clean rounds
+	AllowDupReset  bool   // include the labelled "same root height repeated reset" action (C01 only)
+	MaxSegments    int    // upper bound on round segments (0 = 12)
+	CutSteps       int    // stop the scenario once this many simulator steps were taken (0 = never) - C15's GST
+	Families       string // restrict to families, e.g. "F3" (sensitivity experiments); "" = all
+	NoFinish       bool   // do not append the closing clean rounds
+	ExtraPartition bool   // with probability 1/2 end the script with a partition segment (C15: replicas spread over rounds at GST)
 }
 
 // Result is a finished (or cut) scenario.
@@ -385,6 +388,19 @@ func RunOn(t *rapid.T, opt Options, cfg bs.Config, mode string, g1, g2 []int) *R
 	case "F5":
 		g.famReplay()
 	}
+	if opt.ExtraPartition && !g.done() {
+		switch rapid.IntRange(0, 3).Draw(t, "extra") {
+		case 0, 1:
+			g.partition()
+		case 2:
+			if !g.secondLock() {
+				g.lockRoundN(false, true)
+				if !g.done() {
+					g.secondLock()
+				}
+			}
+		}
+	}
 	if !opt.NoFinish && !g.res.Cut {
 		g.finish()
 	}
@@ -479,6 +495,8 @@ type segOpt struct {
 	dropFrom   map[int]bool
 	lead       *bs.ByzLeader
 	extraAfter func(step int, sent []*bs.Env)
+	awake      map[int]bool // when set: only these replicas' timers fire and only they receive anything
+	byzActive  bool         // Byzantine engines take part like correct ones in this segment
 }
 
 func (g *gen) runSeg(o segOpt) []*bs.Env {
@@ -495,6 +513,9 @@ func (g *gen) runSeg(o segOpt) []*bs.Env {
 	if o.skip > 0 {
 		pol.Fire = func(step, i int) bool { return nr.Float64() >= o.skip }
 	}
+	if o.awake != nil {
+		pol.Fire = func(step, i int) bool { return o.awake[i] }
+	}
 	if o.shuffle {
 		pol.Order = func(step int, ids []int) []int {
 			nr.Shuffle(len(ids), func(a, b int) { ids[a], ids[b] = ids[b], ids[a] })
@@ -502,13 +523,13 @@ func (g *gen) runSeg(o segOpt) []*bs.Env {
 		}
 	}
 	pol.Route = func(e *bs.Env, to int) bool {
-		if o.dropFrom[e.From] {
+		if o.dropFrom[e.From] || (o.awake != nil && (!o.awake[to] || !o.awake[e.From])) {
 			return false
 		}
 		if o.lead != nil && o.lead.SuppressEngine(e) {
 			return false
 		}
-		if s.R[e.From].Byz && !e.Crafted && (o.byzSilent || (g.dMode == "silent" && o.lead == nil && o.want != e.From)) {
+		if s.R[e.From].Byz && !e.Crafted && !o.byzActive && (o.byzSilent || (g.dMode == "silent" && o.lead == nil && o.want != e.From)) {
 			return false
 		}
 		if o.want >= 0 && e.Kind == "EL" && plan.Suppress[e.From] && e.View.RootHeight == root && e.View.Round == round {
@@ -616,6 +637,14 @@ func (g *gen) craftedReplay(nr *rand.Rand) {
 		}
 		if ph == bs.Commit && cert.Header.Phase != bs.PrecommitVote && ev.Open(KFWrongPhase) {
 			g.res.Excluded[KFWrongPhase]++
+			return
+		}
+		if cert.Header.Phase == bs.PrecommitVote && s.CertPower(cert) < s.VS.MinimumMaj23 && ev.Open(KFStripBlock) {
+			g.res.Excluded[KFStripBlock]++
+			return
+		}
+		if ph == bs.Precommit && cert.Header.Phase != bs.ProposeVote && ev.Open(KFElectPrecom) {
+			g.res.Excluded[KFElectPrecom]++
 			return
 		}
 		e := s.CraftJustified(d, root, round, ph, cert, root, sub)
@@ -893,7 +922,11 @@ func (g *gen) honestLeader() (int, bool) {
 }
 
 // lockRound: a correct leader's round in which PRECOMMIT reaches `lockers` and COMMIT reaches `committers`.
-func (g *gen) lockRound(allLock bool) bool {
+func (g *gen) lockRound(allLock bool) bool { return g.lockRoundN(allLock, false) }
+
+// lockRoundN with few=true delivers PRECOMMIT to a small set only (the rest keeps a +2/3 majority together with the
+// Byzantine validators), the preparation of secondLock.
+func (g *gen) lockRoundN(allLock, few bool) bool {
 	l, ok := g.honestLeader()
 	if !ok {
 		g.clean(false)
@@ -901,7 +934,38 @@ func (g *gen) lockRound(allLock bool) bool {
 	}
 	_, _, at := g.front()
 	lockers := at
-	if !allLock {
+	if few {
+		var bz uint64
+		for _, b := range g.byz {
+			bz += g.s.Cfg.Power[b]
+		}
+		lockers = nil
+		for _, i := range perm(g.t, len(at), "fewOrder") {
+			c := at[i]
+			if c == l {
+				continue // the leader always sees its own PRECOMMIT
+			}
+			var rest []int
+			for _, x := range at {
+				if x != c && x != l {
+					in := false
+					for _, y := range lockers {
+						in = in || y == x
+					}
+					if !in {
+						rest = append(rest, x)
+					}
+				}
+			}
+			if g.s.PowerOf(rest)+bz >= g.s.VS.MinimumMaj23 {
+				lockers = append(lockers, c)
+				if rapid.Bool().Draw(g.t, "fewStop") {
+					break
+				}
+			}
+		}
+		// the leader locks as well (own copy); it is cut off together with the lockers afterwards
+	} else if !allLock {
 		lockers = g.drawSubset(at, "lockers", false)
 	}
 	var committers []int // the leader always has its own copy of COMMIT
@@ -914,11 +978,62 @@ func (g *gen) lockRound(allLock bool) bool {
 	return true
 }
 
+// secondLock: while the replicas that hold a lock are cut off, the others (with the Byzantine validators taking part)
+// run a round of their own: a correct leader that knows of no lock proposes a fresh block, PRECOMMIT reaches a drawn
+// subset, COMMIT nobody. Afterwards correct replicas are locked on DIFFERENT blocks at different views - the state
+// that only the safe-node liveness branch (and a leader re-proposing the highest lock) can resolve.
+func (g *gen) secondLock() bool {
+	s := g.s
+	var lockers, rest []int
+	for _, i := range g.activeHonest() {
+		if s.R[i].B.HighQC != nil {
+			lockers = append(lockers, i)
+		} else {
+			rest = append(rest, i)
+		}
+	}
+	if len(lockers) == 0 || len(rest) == 0 {
+		return false
+	}
+	var bz uint64
+	for _, b := range g.byz {
+		bz += s.Cfg.Power[b]
+	}
+	if s.PowerOf(rest)+bz < s.VS.MinimumMaj23 {
+		return false
+	}
+	root, round, _ := g.front()
+	awake := map[int]bool{}
+	for _, i := range rest {
+		if s.R[i].RootHeight() == root && s.R[i].B.Round == round {
+			awake[i] = true
+		}
+	}
+	for _, b := range g.byz {
+		awake[b] = true
+	}
+	var l = -1
+	for _, i := range rest {
+		if awake[i] && s.PlanLeader(root, round, i, rest).OK {
+			l = i
+			break
+		}
+	}
+	if l < 0 {
+		return false
+	}
+	pcTo := g.drawSubset(rest, "secondLockers", false)
+	g.script("second-lock(L=%d,awake=%v,precommit->%v,cut-off=%v)", l, rest, pcTo, lockers)
+	g.class("seg:second-lock")
+	g.runSeg(segOpt{want: l, p: 1, pm: 0, awake: awake, byzActive: true, onlyTo: map[string][]int{"PC": pcTo, "CM": {}}})
+	return true
+}
+
 // byzRound: Byzantine leader d plays `variant` in the front view.
 func (g *gen) byzRound(d int, variant string) *bs.ByzLeader {
 	s := g.s
 	root, round, at := g.front()
-	bl := &bs.ByzLeader{S: s, D: d, Root: root, Round: round, CoSigners: g.byz}
+	bl := &bs.ByzLeader{S: s, D: d, Root: root, Round: round, CoSigners: g.byz, NoPartialCM: ev.Open(KFStripBlock)}
 	desc := variant
 	switch variant {
 	case "withhold": // collect a +2/3 PROPOSE_VOTE certificate, withhold PRECOMMIT from everybody or from all but a subset
@@ -1014,6 +1129,7 @@ func (g *gen) byzRound(d int, variant string) *bs.ByzLeader {
 			g.stash = append(g.stash, c)
 		}
 	}
+	g.res.Excluded[KFStripBlock] += bl.SkippedCM
 	return bl
 }
 
@@ -1117,7 +1233,14 @@ func (g *gen) famPartialCommit() {
 			g.lossy()
 		}
 	}
-	g.lockRound(rapid.Bool().Draw(g.t, "allLock"))
+	if rapid.IntRange(0, 2).Draw(g.t, "conflictingLocks") == 0 {
+		g.lockRoundN(false, true)
+		if !g.done() {
+			g.secondLock()
+		}
+	} else {
+		g.lockRound(rapid.Bool().Draw(g.t, "allLock"))
+	}
 	g.maybeBump(3)
 	g.maybeDup()
 	k := rapid.IntRange(1, 3).Draw(g.t, "after")
@@ -1156,6 +1279,10 @@ func (g *gen) famReplay() {
 			g.burn()
 		case 3:
 			g.partition()
+		case 4:
+			if !g.secondLock() {
+				g.lossy()
+			}
 		default:
 			g.lossy()
 		}
